@@ -48,7 +48,7 @@ def main():
                        nproc=common.nproc(), budget_s=300 if t == "quick" else 3000)
     chk.add("strategy-product", r)
     sh = fam_merge.triple_shards(t, (PROP,), kn, strats=("none", "mergetool") if t == "thorough" else ("none",))
-    r = runner.explore("harness.fam_merge", sh, nproc=common.nproc(), budget_s=400 if t == "quick" else 2400)
+    r = runner.explore("harness.fam_merge", sh, nproc=common.nproc(), budget_s=400 if t == "quick" else 4000)
     chk.add("generic-decisions", r)
     chk.bounds.update(F.BOUNDS[t])
     chk.bounds["generic"] = "triples of lists of 0..3 symbolic ints, lists of 0..2 elements of docs.ALTS_MERGE, objects over keys {a,b}"
